@@ -54,6 +54,9 @@ bool io_points();
 /// true when an allocation made right now by the calling thread may be a schedule point: pristine-process run,
 /// inside a task, and not inside one of the scheduler's own wrappers (whose bookkeeping must stay atomic)
 bool alloc_point_ok();
+/// RAII: no schedule point while alive (bookkeeping of a seam - the simulated file layer's tables - must be atomic
+/// with respect to the scheduler, like the scheduler's own wrappers)
+struct NoPoints { NoPoints(); ~NoPoints(); };
 
 /// process-wide counters (also outside the scheduler): used by `bxsim catalogue`
 i64 total_qng_calls();
